@@ -282,6 +282,21 @@ def r20_3(ctx):
         # a write before the guard?
         if any(x.get("k") == "MethodCall" and x["method"] in ("push", "insert", "remove") for x in walk(st)):
             break
+    # ... and only the injector writes to the argument list of a call it was handed: a write elsewhere is not behind this guard
+    from .mirflow import mut_events
+    from .influence import flow_of as _flow_of
+    fam = {b["path"] for b in ctx.facts.mir_family(C.mir_of(ctx, inj))} if C.mir_of(ctx, inj) is not None else set()
+    n_out = 0
+    for mb in ctx.facts.mir:
+        if mb["crate"] != VISITOR_CRATE or mb.get("mac") or mb["path"] in fam:
+            continue
+        for e in mut_events(mb, _flow_of(ctx, mb)):
+            if e["kind"] == "call" and e.get("arg_ty", "").startswith("&mut alloc::vec::Vec<%sExprOrSpread>" % AST) and \
+                    any(x[0] == "param" and x[1] >= 2 and x[2].replace("*", "").endswith(".args") for x in e["sources"]):
+                n_out += 1
+                r.ob("%s: %s on the argument list of a visited call" % (mb["path"], e["callee"].split("::")[-1]), False, C.mloc(mb, e["node"]),
+                     "the argument list of a user call is written outside the injector: neither its spread guard nor its existing-key scan applies here")
+    r.ob("only the injector writes to the argument list of a visited call", n_out == 0, "-", "no other body mutates `<visited call>.args`" if n_out == 0 else "%d write(s) elsewhere" % n_out)
     r.ob("spread argument list is left alone", guard is not None, C.mloc(inj, guard or inj), "early return on a spread argument, before any write" if guard else "no early return on `.spread.is_some()` before the first write")
     if guard is not None:
         # ... wherever in the list the spread stands: the test ranges over the arguments, it is not a look at one position
@@ -376,6 +391,27 @@ def r20_3(ctx):
              "props.iter().any(..)" if _whole_list(scan) else "the scan runs over a part of the property list only (`%s`): a key outside it is not seen, the option is injected again" % expr_str(scan["recv"])[:60])
         r.ob("existing-key scan covers every key-bearing property form", ok_v, C.mloc(inj, scan), "Prop variants examined: %s" % sorted(variants) if ok_v else "Prop variants examined: %s — %s would get a duplicate, later (winning) key" % (sorted(variants), sorted(need_v - variants)))
         r.ob("existing-key scan matches identifier and string keys", ok_k, C.mloc(inj, scan), "PropName forms: %s" % sorted(keyforms))
+        # the scan and the write look at the same object: the second argument itself. Neither side looks through wrappers (`as const`,
+        # parentheses, ..) unless the other does: Expr variants matched / local functions handing back an `&mut Expr` must agree
+        def expr_forms(bd):
+            return {x.get("variant") for x in walk(bd) if x.get("k") in ("PTupleStruct", "PStruct") and x.get("adt") == AST + "Expr" and x.get("variant")}
+        def expr_helpers(bd):
+            out_ = set()
+            for x in walk(bd):
+                if x.get("k") in ("Call", "MethodCall") and x.get("callee") and (VISITOR_CRATE, x["callee"]) in ctx.facts.hir_by_path:
+                    hb3 = ctx.facts.hir_by_path[(VISITOR_CRATE, x["callee"])]
+                    if re.search(r"&(mut )?%sExpr$|&(mut )?%sObjectLit$" % (re.escape(AST), re.escape(AST)), hb3.get("output") or ""):
+                        out_.add(x["callee"].split("::")[-1])
+            return out_
+        f_inj, f_scan = expr_forms(body) - {"Object"}, expr_forms(scan_body) - {"Object"}
+        h_inj, h_scan = expr_helpers(body), expr_helpers(scan_body)
+        same = (f_inj == f_scan or scan_body is body) and (h_inj == h_scan or scan_body is body)
+        if scan_body is body:
+            same = not h_inj    # one function: a helper that hands back another expression would separate what is scanned from what is written
+        r.ob("the scan and the injection look at the same options object", same, C.mloc(inj, inj),
+             "both read the second argument as written" if same else
+             "the injection looks through %s, the existing-key scan through %s: a key the user wrote inside a wrapped literal is not seen and is written again after it" % (
+                 sorted(f_inj | h_inj) or "nothing", sorted(f_scan | h_scan) or "nothing"))
         # the write is under `!scan`
         writes = [x for x in walk(body) if x.get("k") == "MethodCall" and x["method"] in ("push", "insert") and "PropOrSpread" in (strip_transparent(x["recv"]).get("ty") or "")]
         guarded = 0
